@@ -107,11 +107,14 @@ theorem htStep_decides (w : Waiting) (q : List Queued) (ht : w.timeout ≤ 1)
     split
     · exact ⟨_, rfl⟩
     · rename_i sk heq
-      have : sk = false := by rw [heq] at hsk2; exact hsk2
-      subst this
       split
       · split <;> exact ⟨_, rfl⟩
-      · exact ⟨.timeout, by simp [h0]⟩
+      · rename_i hnone
+        -- [t8:while-down] not released: the early triggers saw the whole queue
+        have hwd : whileDown (cdown w).coord q = q := whileDown_of_no_release _ q hnone
+        have : sk = false := by rw [hwd] at heq; rw [heq] at hsk2; exact hsk2
+        subst this
+        exact ⟨.timeout, by simp [h0]⟩
 
 /-- an entry that stays undecided had more than one tick left -/
 theorem htStep_undecided (w : Waiting) (q : List Queued) (hs : timeoutApplies q w = true)
@@ -247,7 +250,7 @@ theorem apply_main (s : Layout) (w : Waiting) (a : WAct) (dflt : CustomEv) (hw :
   | noOp => rfl
 
 theorem waitingDelay_step (w : Waiting) (h : isHT w = true) (q : List Queued) :
-    waitingDelay (htStep w q).1 = w.delay + min (w.ticks + 1) U16_MAX := by
+    waitingDelay (htStep w q).1 = min (w.delay + min (w.ticks + 1) U16_MAX) U16_MAX := by
   have hc := htStep_counted w q
   unfold waitingDelay
   rw [hc.config, isHT_config h, hc.delay, hc.ticks]
